@@ -550,6 +550,7 @@ def fault_concrete(case, tables, unfaulted=False):
             "floattext": lambda: conc.rng.choice([1.5, -0.25, 1e-3]),
             "emptytext": lambda: "",
             "nonetext": lambda: None,
+            "booltext": lambda: conc.rng.choice([True, False]),
         }[d["badc"]]()
         if t == "integer" and d["badc"] == "junk":
             bad = conc.rng.choice([bad, "1.5", "1e3", "0x10", "nan"])
